@@ -466,6 +466,7 @@ func runC16(c *Ctx) []Obligation {
 	out = append(out, c.wiringRow(P, "wiring.ante-handler-installed", `^\(\*baseapp\.BaseApp\)\.SetAnteHandler\(.*, x/auth\.NewAnteHandler\(.*\.accountKeeper\)\)$`, "the base app runs the auth module's ante handler (which holds the duplicate lookup)"))
 	out = append(out, c.replayKeyBytes(P), c.canonicalDecode(P))
 	out = append(out, indexerSkipRows(c, P)...)
+	out = append(out, c.loopsExitOnlyAtHeader(P, "indexer.AddBatch.visits-every-result", "(*types.TransactionIndexer).AddBatch", "every executed transaction of the block is recorded, whatever came before it in the batch"))
 	return out
 }
 
